@@ -39,7 +39,7 @@ QUICK_JOBS = 12
 MIN_MONITORS = {"*": {"stat.chi_squared": 20, "stat.noise_normalization": 20, "stat.log_likelihood": 20, "garbage.invariance": 10,
                       "map.residual_flux_fraction": 20, "map.signal_to_noise": 20, "evidence.terms": 10, "evidence.composition": 10,
                       "figure_of_merit": 20, "contract:fit_util.log_evidence_from": 5,
-                      "interf.signal_to_noise_map": 20, "interf.normalized_residual_map": 20, "interf.chi_squared_map": 20, "interf.chi_squared": 20,
+                      "util.masked_helpers": 20, "interf.signal_to_noise_map": 20, "interf.normalized_residual_map": 20, "interf.chi_squared_map": 20, "interf.chi_squared": 20,
                       "interf.noise_normalization": 20, "interf.log_likelihood": 20, "interf.log_evidence": 5, "interf.dirty_maps": 20}}
 
 
@@ -115,10 +115,16 @@ def setup(ctx):
     ctx.FitVis = VerifFitVis
 
     class VerifFit(aa.FitImaging):
-        def __init__(self, dataset, model, inv=None, **k):
+        def __init__(self, dataset, model, inv=None, noise_override=None, **k):
             super().__init__(dataset=dataset, **k)
             self._m = model
             self._inv = inv
+            self._nz = noise_override
+
+        @property
+        def noise_map(self):
+            # a fit may carry its own noise map (e.g. a scaled one); every statistic of the fit is defined with THAT noise map
+            return self._nz if self._nz is not None else super().noise_map
 
         @property
         def model_data(self):
@@ -232,6 +238,47 @@ def run_plain(ctx, i):
                 ctx.check(False, "garbage.invariance", exception=repr(e)[:300], **W)
     if len(stats) == 2:
         ctx.check(stats[0] == stats[1], "garbage.invariance", first=stats[0][:4], second=stats[1][:4], **W)
+    # --- a fit that carries its own (scaled) noise map, in both modes: residuals / chi-squared / normalization / likelihood all with it
+    if i % 3 == 0:
+        nz2 = c["nz"] * np.exp(rng.uniform(-1.5, 1.5, size=c["nz"].shape))
+        D2 = definitions(c["d"][~m] - c["sky"], nz2[~m], c["md"][~m])
+        fit2 = ctx.Fit(ds, aa.Array2D(values=c["md"].copy(), mask=mask), None, noise_override=aa.Array2D(values=nz2.copy(), mask=mask),
+                       dataset_model=dm, use_mask_in_fit=False)
+        check_fit(ctx, fit2, m, D2, "slim", dict(W, fit_noise_map="scaled"))
+        dn = aa.Array2D(values=garbage(rng, m, c["d"], "data"), mask=mask, store_native=True, skip_mask=True)
+        nn = aa.Array2D(values=garbage(rng, m, c["nz"], "noise"), mask=mask, store_native=True, skip_mask=True)
+        mn = aa.Array2D(values=garbage(rng, m, c["md"], "data"), mask=mask, store_native=True, skip_mask=True)
+        n2 = aa.Array2D(values=garbage(rng, m, nz2, "noise"), mask=mask, store_native=True, skip_mask=True)
+        ok, dsn = ctx.guarded("native.dataset", lambda: aa.Imaging(data=dn, noise_map=nn, psf=None, check_noise_map=False))
+        if ok:
+            fit3 = ctx.Fit(dsn, mn, None, noise_override=n2, dataset_model=dm, use_mask_in_fit=True)
+            with np.errstate(all="ignore"):
+                check_fit(ctx, fit3, m, D2, "native", dict(W, fit_noise_map="scaled"))
+        ctx.classes["fit_with_its_own_noise_map"] += 1
+    # --- the masked helpers of fit_util called directly on native arrays that carry anything in masked pixels (maps computed on the
+    #     whole frame, maps of a fit inside a larger mask): scalars sum unmasked pixels only, maps agree on unmasked pixels
+    if i % 3 == 1:
+        from autoarray.fit import fit_util
+        gd, gn, gm_ = garbage(rng, m, c["d"], "data"), garbage(rng, m, np.abs(c["nz"]), "data"), garbage(rng, m, c["md"], "data")
+        gn[m] = np.abs(gn[m]) + 0.1
+        r_ = gd - gm_
+        cm_full = (r_ / gn) ** 2                      # non-zero in masked pixels
+        Du = definitions(c["d"][~m], c["nz"][~m], c["md"][~m])
+        with np.errstate(all="ignore"):
+            for nm, fn, kw, exp in (
+                    ("chi_squared_with_mask_from", fit_util.chi_squared_with_mask_from, dict(chi_squared_map=cm_full.copy(), mask=m.copy()), Du["chi"]),
+                    ("noise_normalization_with_mask_from", fit_util.noise_normalization_with_mask_from, dict(noise_map=gn.copy(), mask=m.copy()), Du["nn"])):
+                ok, v = ctx.guarded("util.masked_helpers", lambda: float(_np(fn(**kw))))
+                if ok:
+                    ctx.check(rel(v, exp), "util.masked_helpers", function=nm, got=v, expected=exp, note="input carries values in masked pixels", **W)
+            for nm, fn, kw, exp in (
+                    ("residual_map_with_mask_from", fit_util.residual_map_with_mask_from, dict(data=gd.copy(), mask=m.copy(), model_data=gm_.copy()), Du["residual"]),
+                    ("normalized_residual_map_with_mask_from", fit_util.normalized_residual_map_with_mask_from, dict(residual_map=r_.copy(), noise_map=gn.copy(), mask=m.copy()), Du["normalized"]),
+                    ("chi_squared_map_with_mask_from", fit_util.chi_squared_map_with_mask_from, dict(residual_map=r_.copy(), noise_map=gn.copy(), mask=m.copy()), Du["chi_map"])):
+                ok, v = ctx.guarded("util.masked_helpers", lambda: np.asarray(_np(fn(**kw)), dtype=float))
+                if ok:
+                    ctx.check(v.shape == m.shape and bool(np.all(np.abs(v[~m] - exp) <= 1e-12 * np.maximum(1.0, np.abs(exp)))), "util.masked_helpers", function=nm,
+                              got=lambda: v[~m], expected=exp, **W)
     ctx.case(m, c["d"], c["nz"], c["md"], c["sky"], nontrivial=bool(m.any() and (~m).sum() >= 2),
              cls=["plain", "mask:" + c["fam"], "sky:" + ("nonzero" if c["sky"] else "zero")],
              sample=lambda: {"mask": m.astype(int).tolist(), "sky": c["sky"], "chi_squared": D["chi"], "noise_normalization": D["nn"]})
